@@ -27,6 +27,8 @@ Sub-checks
   relabel ONE live FlowField / FlowFields: observe (axes x 3, exp, warp_image, sample), relabel the grid in place
           grid_(g2) (two alternative same-size grids), copy form grid(g2), in-place mul_ of the vectors, observe again;
           all orders up to depth 3 with >= 1 mutator; reference recomputed from the current (data, grid, axes) record
+  layout  the vector data given as transposed view / step-sliced view / stride-0 expanded batch (reduced menu): every
+          flow-object operation and the plain-tensor functional forms == the contiguous form, operand untouched
   helpers core/flow.py normalize_flow / denormalize_flow (argument-form product) == GRID <-> CUBE[_CORNERS]
 """
 from __future__ import annotations
@@ -92,10 +94,10 @@ RULE = (
     "complete product D x grid menu x batch form x field kind; per configuration every axes() path of the tier "
     "depth from each of the 4 start representations (judged at every node) and every (operation, argument form, "
     "start representation) triple of warp_image / sample / exp / sitk / write-read; plus complete histories up to depth 3 on LIVE objects "
-    "(grids derived from an already-used parent grid; one flow object observed, relabelled by grid_()/grid(), updated in place, observed again); distinct outcome = bit pattern "
+    "(grids derived from an already-used parent grid; one flow object observed, relabelled by grid_()/grid(), updated in place, observed again); plus a reduced memory-layout menu (vector data as transposed / step-sliced / stride-0 expanded view through every flow operation and the plain-tensor forms); distinct outcome = bit pattern "
     "of the returned tensor + label; non-trivial = the result differs from its input tensor by more than 1e-3 relative"
 )
-EXPLANATION = "frame-graph exploration of flow-field representations, stateless and on live objects (histories of grid derivations, relabelling and in-place updates up to depth 3), against a float64 world-space denotation"
+EXPLANATION = "frame-graph exploration of flow-field representations, stateless and on live objects (histories of grid derivations, relabelling and in-place updates up to depth 3) and on non-contiguous vector data, against a float64 world-space denotation"
 ASSUMPTIONS = [
     "a flow field is denoted by its world displacement at the sample positions; inputs are float32 casts of the reference representation, the denotation is taken from the cast input",
     "tolerances: 64 x 2^-23 x depth x (max spacing / min spacing) x max|u| for vector conversions; interpolating operations: 64 x 2^-23 x depth x value scale x (cond + n/2 [+ |world position| / min spacing when sampling between grids]) = coordinate rounding times the steepest slope",
@@ -105,7 +107,7 @@ ASSUMPTIONS = [
 ]
 MIN_NONTRIVIAL = {"quick": 50000, "thorough": 150000}
 MIN_OUTCOMES = {"quick": 50000, "thorough": 150000}
-MIN_SUB_TRACES = {"axes": 20000, "warp": 800, "sample": 3000, "exp": 1000, "sitk": 300, "file": 300, "helpers": 800, "tovec": 4000, "history": 4000, "livegrid": 1000, "relabel": 20000}
+MIN_SUB_TRACES = {"axes": 20000, "warp": 800, "sample": 3000, "exp": 1000, "sitk": 300, "file": 300, "helpers": 800, "tovec": 4000, "history": 4000, "livegrid": 1000, "relabel": 20000, "layout": 80}
 
 EPS32 = 2.0 ** -23
 C = 64.0
@@ -242,6 +244,8 @@ def bounds(tier):
         "axes_paths_per_configuration": {f: 4 ** (depth_of(tier, f) + 1) for f in forms(tier)},
         "exp_menu": [list(x) for x in exp_menu(tier)],
         "sample_targets": target_names(tier),
+        "layout": {"forms": list(LAYOUTS), "configurations": sum(1 for c in cf if layout_enabled(c)), "starts": 4,
+                   "operations": ["axes x3", "exp", "sample", "warp_image", "warp_image(image view)", "Grid.transform_vectors x3", "normalize_flow", "denormalize_flow", "expv", "warp_image(flow view)", "sample_flow", "compose_flows"]},
         "livegrid": {"alphabet": list(LG_OBS + LG_DERIVE), "depth": 3, "histories_per_configuration": len(livegrid_histories(tier)),
                      "configurations": sum(1 for c in cf if c["form"] == "single" and (tier == "thorough" or c["fkind"] == "affine"))},
         "relabel": {"alphabet": list(RL_OBS + RL_MUT), "depth": 3, "histories_per_configuration_and_start": len(relabel_histories(tier)),
@@ -1673,6 +1677,145 @@ def run_relabel(ctx: Ctx, hist, starts=AXES):
 
 
 # ---------------------------------------------------------------------------
+# sub-check: MEMORY LAYOUT of the user-supplied vector data (transposed view, step-sliced view, stride-0 batch)
+LAYOUTS = ("transposed", "sliced", "expanded")
+LAYOUT_GEOS = ("p54", "r73", "p435", "r354")
+
+
+def layout_enabled(cfg) -> bool:
+    return cfg["fkind"] == "affine" and cfg["form"] in ("single", "shared2") and cfg["gname"][:-2] in LAYOUT_GEOS
+
+
+def _unchanged(t, before):
+    return tensor_bytes(t) == before[0] and t._version == before[1]
+
+
+def run_layout(ctx: Ctx, layout: str, starts=AXES):
+    """Every operation on a flow object (and the plain-tensor functional forms) whose vector data is a non-contiguous
+    view must give the result of the contiguous form and leave the operand untouched."""
+    from deepali.core import flow as U
+    from deepali.core.grid import Axes
+    from deepali.data.flow import FlowField, FlowFields
+    from deepali.data.image import Image, ImageBatch
+    from ref import layout as L
+
+    rec = Rec()
+    form = ctx.form
+    if layout == "expanded" and ctx.single:
+        return rec  # a stride-0 batch needs a batch
+    grids = ctx.real_grids()
+    r0 = ctx.rgrids[0]
+    for a in starts:
+        arrs = ctx.start_arrays(a)
+        if layout == "expanded":
+            base = torch.from_numpy(arrs[0].copy())
+            tl = L.relayout(base, "expanded", n=ctx.N)
+            tc = L.relayout(base, "repeat", n=ctx.N)
+        else:
+            t0 = torch.from_numpy(arrs[0].copy() if ctx.single else np.stack(arrs))
+            if not L.applicable(t0, layout):
+                rec.undef.append("layout: form not applicable to this shape")
+                continue
+            tl = L.relayout(t0, layout)
+            tc = L.relayout(t0, "contig")
+        if tl.is_contiguous() or not torch.equal(tl, tc):
+            rec.undef.append("layout: variant is contiguous or not equal (harness)")
+            continue
+        before = (tensor_bytes(tl), tl._version)
+        # the field every item denotes (all items equal for the expanded form)
+        den = [ff.to_world(r0 if layout == "expanded" else r, (tc if ctx.single else tc[j]).double().numpy(), a) for j, r in enumerate(ctx.rgrids)]
+        lc = _live_ctx(form, ctx.D, ctx.cfg["grids"], ctx.rgrids, den)
+
+        def make(t):
+            if ctx.single:
+                return FlowField(t, grids[0], Axes(a))
+            return FlowFields(t, grids[0], Axes(a))
+
+        st, pair = guarded(lambda: (make(tc), make(tl)))
+        pre0 = f"C10/layout/{form}/start={a}/layout={layout}"
+        if st == "raises":
+            rec.add(f"{pre0}/op=construct/raises={type(pair).__name__}", exc_text(pair))
+            continue
+        Fc, Fl = pair
+        rec.results.append(("layout-kept", bool(not Fl.tensor().is_contiguous())))
+        imgform = "Image"
+        image_c, arrs_img = real_image(lc, grids, imgform)
+        img_l = L.relayout(image_c.tensor(), "transposed")
+        image_l = Image(img_l, grids[0])
+        tspec = target_spec(ctx.cfg["grids"][0], "sub")
+        tg = rg.real_grid(tspec)
+        ops = [(f"axes({b})", (lambda F, b=b: F.axes(Axes(b))), "vec") for b in AXES if b != a]
+        ops += [("exp", (lambda F: F.exp(steps=3)), "interp"), ("sample", (lambda F: F.sample(tg)), "interp"),
+                ("warp", (lambda F: F.warp_image(image_c)), "img"), ("warp[image-view]", (lambda F: F.warp_image(image_l)), "img")]
+        for name, fn, kind in ops:
+            pre = f"C10/layout/{form}/op={name}/start={a}/layout={layout}"
+            stc, rc = rec.call(fn, Fc)
+            stl, rl = rec.call(fn, Fl if name != "warp[image-view]" else Fc)
+            if stc == "raises":
+                continue  # the contiguous form is judged by the other sub-checks
+            if stl == "raises":
+                rec.add(f"{pre}/raises={type(rl).__name__}", exc_text(rl))
+                continue
+            st, oc = guarded(lambda: rc.tensor().double().numpy())
+            st2, ol = guarded(lambda: rl.tensor().double().numpy())
+            if st == "raises" or st2 == "raises" or type(rc) is not type(rl) or oc.shape != ol.shape:
+                rec.add(f"{pre}/shape", f"result {type(rl).__name__} {getattr(rl, 'shape', None)} vs contiguous form {type(rc).__name__} {getattr(rc, 'shape', None)}")
+                continue
+            if getattr(rc, "_axes", None) is not getattr(rl, "_axes", None):
+                rec.add(f"{pre}/label", "axes label differs from the contiguous form")
+            scale = max(float(np.abs(oc).max()), 1e-30)
+            tol = 0.0 if np.array_equal(oc, ol) else (C * EPS32 * 3 * lc.cond * scale if kind == "vec" else C * EPS32 * 5 * scale * (lc.cond + lc.nmax / 2.0 + (max(r.scale() for r in lc.rgrids) / lc.smin if name == "sample" else 0.0)))
+            d = float(np.abs(oc - ol).max())
+            if not d <= tol:
+                rec.add(f"{pre}/value", f"result differs from the contiguous form by {d:.3e} > tol {tol:.2e}")
+            if not _unchanged(tl, before):
+                rec.add(f"{pre}/operand-mutated", "the non-contiguous vector data was modified")
+                break
+            rec.results.append(("layout", name, a, layout, tensor_bytes(rl.tensor())))
+            rec.nontrivial += 1
+        # plain-tensor functional forms
+        fun = []
+        vl, vc = (tl if not ctx.single else tl.unsqueeze(0)), (tc if not ctx.single else tc.unsqueeze(0))  # (N, D, ..., X)
+        for b in AXES:
+            if b != a:
+                fun.append((f"Grid.transform_vectors({b})", (lambda t, b=b: grids[0].transform_vectors(t.movedim(1, -1), axes=Axes(a), to_axes=Axes(b))), "vec"))
+        if a == "grid":
+            fun.append(("normalize_flow", (lambda t: U.normalize_flow(t, align_corners=False)), "vec"))
+        if a == "cube":
+            fun.append(("denormalize_flow", (lambda t: U.denormalize_flow(t, align_corners=False)), "vec"))
+            fun.append(("expv", (lambda t: U.expv(t, steps=3, align_corners=False)), "interp"))
+            coords = grids[0].coords(align_corners=False)
+            img_b = image_c.tensor().unsqueeze(0)
+            fun.append(("warp_image[flow-view]", (lambda t: U.warp_image(img_b, coords, flow=t.movedim(1, -1), align_corners=False)), "interp"))
+            fun.append(("sample_flow", (lambda t: U.sample_flow(t, coords.unsqueeze(0), align_corners=False)), "interp"))
+            fun.append(("compose_flows", (lambda t: U.compose_flows(t, t, align_corners=False)), "interp"))
+        for name, fn, kind in fun:
+            pre = f"C10/layout/tensor/op={name}/start={a}/layout={layout}"
+            stc, rc = rec.call(fn, vc)
+            stl, rl = rec.call(fn, vl)
+            if stc == "raises":
+                continue
+            if stl == "raises":
+                rec.add(f"{pre}/raises={type(rl).__name__}", exc_text(rl))
+                continue
+            if not isinstance(rl, torch.Tensor) or rl.shape != rc.shape:
+                rec.add(f"{pre}/shape", f"shape {tuple(getattr(rl, 'shape', ()))} vs {tuple(rc.shape)}")
+                continue
+            oc, ol = rc.double().numpy(), rl.double().numpy()
+            scale = max(float(np.abs(oc).max()), 1e-30)
+            tol = 0.0 if np.array_equal(oc, ol) else (C * EPS32 * 3 * lc.cond * scale if kind == "vec" else C * EPS32 * 5 * scale * (lc.cond + lc.nmax / 2.0))
+            d = float(np.abs(oc - ol).max())
+            if not d <= tol:
+                rec.add(f"{pre}/value", f"result differs from the contiguous form by {d:.3e} > tol {tol:.2e}")
+            if not _unchanged(tl, before):
+                rec.add(f"{pre}/operand-mutated", "the non-contiguous vector data was modified")
+                break
+            rec.results.append(("layout-fn", name, a, layout, tensor_bytes(rl)))
+            rec.nontrivial += 1
+    return rec
+
+
+# ---------------------------------------------------------------------------
 def op_cases(ctx: Ctx, tier: str):
     """All (sub, params) cases of the operation sub-checks for a configuration."""
     out = []
@@ -1694,6 +1837,9 @@ def op_cases(ctx: Ctx, tier: str):
     if ctx.single and (tier == "thorough" or ctx.cfg["fkind"] == "affine"):
         for h in livegrid_histories(tier):
             out.append(("livegrid", {"hist": h}))
+    if layout_enabled(ctx.cfg):
+        for lay in LAYOUTS:
+            out.append(("layout", {"layout": lay}))
     if ctx.cfg.get("alt"):
         for h in relabel_histories(tier):
             out.append(("relabel", {"hist": h}))
@@ -1736,6 +1882,8 @@ def _run_op(ctx: Ctx, sub: str, p: dict, starts=AXES) -> Rec:
         return run_tovec(ctx, p["target"])
     if sub == "history":
         return run_history(ctx, p["op"], p["arg"], p["update"], starts)
+    if sub == "layout":
+        return run_layout(ctx, p["layout"], starts)
     if sub == "livegrid":
         return run_livegrid(ctx, list(p["hist"]))
     if sub == "relabel":
